@@ -57,7 +57,7 @@ impl Encode for ScriptEncoder {
         }
         if msg.ends_with(":fail") {
             // a record that cannot be rendered to its end (sequential histories, op kind 2)
-            return Err(anyhow::anyhow!("scripted encoder failure"));
+            return Err(vh::util::varied_error("scripted encoder failure".to_string()));
         }
         Ok(())
     }
